@@ -5,6 +5,7 @@ import AslModel.History
 import AslModel.Lite
 import Proofs.Lemmas.Log
 import Proofs.Lemmas.FuelMono
+import Proofs.Lemmas.MapBatches
 namespace Asl.C09
 open Asl
 
@@ -86,7 +87,7 @@ theorem run_state_facts (env : Env) (fuel : Nat) (asl input ctx : Json) :
   have G : Grows {} (runCore env fuel asl input ctx).2 := by
     unfold runCore
     split
-    · exact (growsAll env fuel).runFrom _ _ _ _ _ _
+    · exact (growsAll (env.forMachine asl) fuel).runFrom _ _ _ _ _ _
     · exact Grows.refl _
   obtain ⟨evs, ts, hl, ht, hx, hb, _⟩ := G
   have hl' : (runCore env fuel asl input ctx).2.log = evs := by simpa using hl
@@ -121,7 +122,7 @@ theorem history_starts_and_ends (env : Env) (fuel : Nat) (asl input ctx : Json)
   obtain ⟨r, st⟩ := p
   cases r with
   | done d => exact ⟨.execSucceeded d, rfl, hx, Or.inl ⟨rfl, d, rfl, rfl⟩⟩
-  | failed e c f => exact ⟨.execFailed e c, rfl, hx, Or.inr ⟨rfl, e, rfl, rfl⟩⟩
+  | failed e c f => exact ⟨.execFailed (publicError e) c, rfl, hx, Or.inr ⟨rfl, publicError e, rfl, rfl⟩⟩
   | fuel => rcases hs with h | h <;> (simp only [Outcome.ofRun] at h; exact absurd h (by decide))
   | unsupported w => rcases hs with h | h <;> (simp only [Outcome.ofRun] at h; exact absurd h (by decide))
 
@@ -157,17 +158,23 @@ theorem taskCall_files_request_then_reply (st : St) (counts : List ((Str × Json
     (st.taskCall counts res p ev tEnd).log = ev :: .lambdaScheduled p res :: st.log ∧
     (st.taskCall counts res p ev tEnd).times = rmax st.clock tEnd :: st.clock :: st.times := ⟨rfl, rfl⟩
 
-/-- … in the Task state (the worker answers, or `TimeoutSeconds` runs out): the request, then directly the
+/-- … in the Task state (the worker answers, or the Task's own `TimeoutSeconds` runs out — `hT`: if the invocation
+ends by a time limit, the limit in force is, or coincides with, the Task's own): the request, then directly the
 outcome's event — a reply kind: `LambdaFunctionSucceeded`, `LambdaFunctionFailed` or `LambdaFunctionTimedOut` —;
-whatever the state does afterwards (ResultSelector, ResultPath, transition, Retry, Catch) comes later -/
+whatever the state does afterwards (ResultSelector, ResultPath, transition, Retry, Catch) comes later.
+(An invocation cut by the execution's time limit alone files the request and nothing else:
+`C08.task_cut_by_execution_files_request_only`.) -/
 theorem task_events_bracketed (env : Env) (fuel : Nat) (states : Json) (name fn : Str)
     (state data ctx input params : Json) (retries : Nat) (st : St) (tEnd : Rat) (timedOut : Bool)
     (h : stateType state = S "Task")
     (hr : rpcFunction ((fldStr state "Resource").getD []) = some fn)
     (hi : applyPath data ctx (pathArg state "InputPath") = .ok input)
     (hp : tmplOpt env input ctx (fld state "Parameters") = .ok params)
-    (ha : taskArrival (env.delay fn params (bump st.counts (fn, params)).1) (taskDeadline state st.clock) st.clock
-      = some (tEnd, timedOut)) :
+    (own : Option Rat) (hown : taskOwnDeadline state data ctx st.clock = .ok own)
+    (ha : taskArrival (env.delay fn params (bump st.counts (fn, params)).1)
+        ((taskLimit own env.deadline st.clock).map (·.t)) st.clock
+      = some (tEnd, timedOut))
+    (hT : timedOut = true → ∃ l, taskLimit own env.deadline st.clock = some l ∧ l.task = true) :
     (∃ later, (runState env (fuel + 1) states name state data ctx retries st).2.log =
       later ++ taskEv env.maxData (env.task fn params (bump st.counts (fn, params)).1) timedOut ::
         .lambdaScheduled params ((fldStr state "Resource").getD []) :: st.log) ∧
@@ -179,7 +186,13 @@ theorem task_events_bracketed (env : Env) (fuel : Nat) (states : Json) (name fn 
   have h5 : (S "Task" = S "Choice") = False := by decide
   have G := growsAll env fuel
   refine ⟨?_, (taskEv_plain _ _ _).2.2⟩
-  simp only [runState, h, h1, h2, h3, h4, h5, hr, hi, hp, St.closeKeep_counts, St.closeKeep_clock, ha, if_false, if_true]
+  have hbt : (timedOut && !(timedOut && (Option.map (·.task)
+      (taskLimit own env.deadline st.clock)).getD true)) = false := by
+    cases timedOut with
+    | false => rfl
+    | true => obtain ⟨l, hl, ht⟩ := hT rfl; simp [hl, ht]
+  simp only [runState, h, h1, h2, h3, h4, h5, hr, hi, hp, St.closeKeep_counts, St.closeKeep_clock, hown, ha, if_false, if_true,
+    hbt, Bool.false_eq_true]
   generalize hst : (st.closeKeep.request timedOut).taskCall (bump st.counts (fn, params)).2 ((fldStr state "Resource").getD []) params
     (taskEv env.maxData (env.task fn params (bump st.counts (fn, params)).1) timedOut) tEnd = st1
   have hl : st1.log = taskEv env.maxData (env.task fn params (bump st.counts (fn, params)).1) timedOut ::
@@ -219,7 +232,7 @@ theorem notifications_shape (env : Env) (fuel : Nat) (asl input ctx : Json)
   obtain ⟨r, st⟩ := p
   cases r with
   | done d => exact ⟨d, rfl, Or.inl ⟨rfl, rfl⟩⟩
-  | failed e c f => exact ⟨errorOutput e c, rfl, Or.inr ⟨rfl, e, rfl, rfl⟩⟩
+  | failed e c f => exact ⟨errorOutput (publicError e) c, rfl, Or.inr ⟨rfl, publicError e, rfl, rfl⟩⟩
   | fuel => rcases hs with h | h <;> (simp only [Outcome.ofRun] at h; exact absurd h (by decide))
   | unsupported w => rcases hs with h | h <;> (simp only [Outcome.ofRun] at h; exact absurd h (by decide))
 
@@ -260,17 +273,21 @@ theorem refused_leave_logs_nothing (env : Env) (fuel : Nat) (states : Json) (nam
       simp [leave, hE', hn, hL]
 
 /-- a state whose error is neither retried nor caught logs no exit: a Task / Pass / … state leaves the
-log exactly as it was, a Parallel / Map state files `<Type>StateFailed` and nothing else -/
+log exactly as it was, a Parallel / Map state files `<Type>StateFailed` and nothing else — and when the error is the
+execution's time-out not even that (`handle_error` files no `…StateFailed` for it) -/
 theorem failed_state_logs_no_exit (env : Env) (fuel : Nat) (states : Json) (name : Str) (state data ctx : Json)
     (retries : Nat) (e msg : Str) (st : St)
     (h : decideError ((listOf (fld state "Retry")).map retrierOf) ((listOf (fld state "Catch")).map catcherOf)
       e retries = .uncaught) :
-    (handleErr env (fuel + 1) states name state data ctx retries e msg st).2 = (st.fanFailedIf state).failTok ∧
+    (handleErr env (fuel + 1) states name state data ctx retries e msg st).2 =
+      (if e = execTimeoutName then st else st.fanFailedIf state).failTok ∧
     (isFanOut (stateType state) = false → st.fanFailedIf state = st) ∧
-    (isFanOut (stateType state) = true → (st.fanFailedIf state).log = .fanFailed (stateType state) :: st.log) := by
-  refine ⟨by simp [handleErr, h], ?_, ?_⟩
+    (isFanOut (stateType state) = true → (st.fanFailedIf state).log = .fanFailed (stateType state) :: st.log) ∧
+    (e = execTimeoutName → (handleErr env (fuel + 1) states name state data ctx retries e msg st).2.log = st.log) := by
+  refine ⟨by simp [handleErr, h], ?_, ?_, ?_⟩
   · intro hf; simp [St.fanFailedIf, hf]
   · intro hf; simp [St.fanFailedIf, hf, St.push]
+  · intro he; subst he; simp [handleErr, h, St.failTok]
 
 /-- a caught state is exited (the engine files the Catcher's transition under the caught state's name)
 with the data handed to the Catcher's `Next`, before anything the successor logs -/
@@ -381,5 +398,55 @@ example : ∃ c, decideError ((listOf (fld tSt "Retry")).map retrierOf) ((listOf
 /-- `bracketed` is not constantly true: a reply without its request is rejected -/
 example : bracketed [.lambdaSucceeded (.num 1), .entered (k "Task") (k "T") inL] = false ∧
     bracketed [.lambdaSucceeded (.num 1), .lambdaScheduled inL arnF] = true := by decide
+
+/-! ### no further Map batch after a failure -/
+
+/-- Map batches after a failure.  With `MaxConcurrency` mc > 0, let `done` be the items of the batches up to and
+including one in which an iteration failed (complete batches: a multiple of mc items) and `rest` the items of the
+later batches.  The later batches are never launched: the run over `done ++ rest` *is* the run over `done` — the
+same result and the same state.  In particular no event of a later batch is logged (`log`, with its instants
+`times`), no request of a later batch is counted (`requests`), and the clock and the predicted broker frames are
+those of `done` alone.  For every iterator, ItemSelector, input, oracle, fuel and starting state. -/
+theorem failed_batch_is_last (env : Env) (fuel : Nat) (proc : Json) (sel : Option Json) (input : Json)
+    (done rest : List Json) (mc : Nat) (be : Rat) (ctx : Json) (st : St)
+    (hmc : mc ≠ 0) (hlen : done.length % mc = 0)
+    (hfail : isFailure (runItems env fuel proc sel input done 0 mc be ctx false st).1 = true) :
+    runItems env fuel proc sel input (done ++ rest) 0 mc be ctx false st =
+      runItems env fuel proc sel input done 0 mc be ctx false st ∧
+    (runItems env fuel proc sel input (done ++ rest) 0 mc be ctx false st).2.log =
+      (runItems env fuel proc sel input done 0 mc be ctx false st).2.log ∧
+    (runItems env fuel proc sel input (done ++ rest) 0 mc be ctx false st).2.times =
+      (runItems env fuel proc sel input done 0 mc be ctx false st).2.times ∧
+    (runItems env fuel proc sel input (done ++ rest) 0 mc be ctx false st).2.requests =
+      (runItems env fuel proc sel input done 0 mc be ctx false st).2.requests := by
+  have h := runItems_failed_batches env fuel proc sel input done rest mc be ctx st hmc hlen hfail
+  exact ⟨h, by rw [h], by rw [h], by rw [h]⟩
+
+/-- … whatever the later items are: two item lists that agree up to the end of the failing batch run alike -/
+theorem later_batches_irrelevant (env : Env) (fuel : Nat) (proc : Json) (sel : Option Json) (input : Json)
+    (done rest rest' : List Json) (mc : Nat) (be : Rat) (ctx : Json) (st : St)
+    (hmc : mc ≠ 0) (hlen : done.length % mc = 0)
+    (hfail : isFailure (runItems env fuel proc sel input done 0 mc be ctx false st).1 = true) :
+    runItems env fuel proc sel input (done ++ rest) 0 mc be ctx false st =
+      runItems env fuel proc sel input (done ++ rest') 0 mc be ctx false st := by
+  rw [runItems_failed_batches env fuel proc sel input done rest mc be ctx st hmc hlen hfail,
+      runItems_failed_batches env fuel proc sel input done rest' mc be ctx st hmc hlen hfail]
+
+/-! non-vacuity: a Map with MaxConcurrency 2 whose iterations are a Task; the worker fails on item 2 (the second of
+the first batch).  Five items in three batches: two iterations are started, two requests made. -/
+private def envB : Env :=
+  { tmpl := Lite.tmpl, choose := Lite.choose,
+    task := fun _ p _ => if p = .num 2 then .obj [(("errorType").toList, .str ("Boom").toList)] else p }
+private def iterT : Json := .obj [(("StartAt").toList, .str ("T").toList), (("States").toList, .obj [(("T").toList,
+  .obj [(("Type").toList, .str ("Task").toList), (("Resource").toList, .str ("arn:aws:rpcmessage:local::function:f").toList),
+    (("End").toList, .bool true)])])]
+example : isFailure (runItems envB 20 iterT none (.obj []) [.num 1, .num 2] 0 2 0 (.obj []) false {}).1 = true ∧
+    [Json.num 1, .num 2].length % 2 = 0 := by decide +kernel
+example : (runItems envB 20 iterT none (.obj []) ([.num 1, .num 2] ++ [.num 3, .num 4, .num 5]) 0 2 0 (.obj []) false {}).2.requests = 2 ∧
+    ((runItems envB 20 iterT none (.obj []) ([.num 1, .num 2] ++ [.num 3, .num 4, .num 5]) 0 2 0 (.obj []) false {}).2.log.filter
+      (fun e => match e with | .iterStarted _ _ => true | _ => false)).length = 2 := by decide +kernel
+/-- without a failure every batch runs: five iterations, five requests -/
+example : (runItems envB 30 iterT none (.obj []) [.num 1, .num 3, .num 4, .num 5, .num 6] 0 2 0 (.obj []) false {}).2.requests = 5 := by
+  decide +kernel
 
 end Asl.C09
